@@ -724,6 +724,10 @@ def gen_c03_spec(rng: random.Random, maxn: int = 40) -> Dict[str, Any]:
             m["beh"]["dur"] = []
             if rng.random() < 0.3:
                 m["beh"]["sync_hold"] = rng.choice([0.05, 0.3, 1.0])
+            elif m.get("timeout") is None and m.get("timeout_raw") is None and kind not in ("malformed", "unknown") and rng.random() < 0.15:
+                # a sync function with a (generous) timeout label: the loop stays alive while it runs
+                m["timeout"] = 30
+                m["beh"]["probe_loop"] = True
         msgs.append(m)
     t_probe = (ats[-1] if ats else 0.0) + 0.5
     probe_toks = []
